@@ -504,3 +504,44 @@ func (p *Prog) FuncSyntax(fn *ssa.Function) ast.Node {
 	}
 	return nil
 }
+
+// ReachLexical is Reach restricted against the imprecision of shared
+// higher-order helpers (errgroup.Go, pool.Go ...): a closure is entered through
+// a dynamic call only if the function that creates it is already reachable.
+func (p *Prog) ReachLexical(entries ...*ssa.Function) map[*ssa.Function]bool {
+	seen := map[*ssa.Function]bool{}
+	for _, e := range entries {
+		if e != nil {
+			seen[e] = true
+		}
+	}
+	for changed := true; changed; {
+		changed = false
+		for f := range seen {
+			var cands []*ssa.Function
+			if n := p.CG.Nodes[f]; n != nil {
+				for _, e := range n.Out {
+					cands = append(cands, e.Callee.Func)
+				}
+			}
+			for _, b := range f.Blocks {
+				for _, ins := range b.Instrs {
+					if mc, ok := ins.(*ssa.MakeClosure); ok {
+						cands = append(cands, mc.Fn.(*ssa.Function))
+					}
+				}
+			}
+			for _, c := range cands {
+				if seen[c] {
+					continue
+				}
+				if par := c.Parent(); par != nil && !seen[par] {
+					continue
+				}
+				seen[c] = true
+				changed = true
+			}
+		}
+	}
+	return seen
+}
